@@ -190,7 +190,7 @@ def run_check(pid, tier, seed, workers, only, write_evidence):
         inconclusive.append('counterexample does not reproduce natively (encoder bug?): %s / %s request %s' %
                             (u['query'], u['label'], json.dumps(u['request'])))
     # ---- vacuity
-    for p in mod.vacuity(results):
+    for p in ([] if only else mod.vacuity(results)):
         inconclusive.append('vacuous: ' + p)
     # ---- known findings
     known = [k for k in load_known() if k.get('property') == pid and k.get('status') == 'known']
